@@ -263,8 +263,18 @@ impl GlobalCollector {
         let submit_spans = &mut self.submit_spans;
         let stale_spans = &mut self.stale_spans;
 
+        #[cfg(fastrace_verif)]
+        crate::verif::hook(crate::verif::Point::CycleBegin);
+        #[cfg(fastrace_verif)]
+        let mut verif_rx_index = 0usize;
+
         {
             SPSC_RXS.lock().retain_mut(|rx| {
+                #[cfg(fastrace_verif)]
+                {
+                    crate::verif::hook(crate::verif::Point::BeforeReceiver(verif_rx_index));
+                    verif_rx_index += 1;
+                }
                 loop {
                     match rx.try_recv() {
                         Ok(Some(CollectCommand::StartCollect(cmd))) => start_collects.push(cmd),
@@ -277,6 +287,10 @@ impl GlobalCollector {
                         }
                         Err(_) => {
                             // Channel closed. Remove it from the channel list.
+                            #[cfg(fastrace_verif)]
+                            crate::verif::hook(crate::verif::Point::ReceiverRemoved(
+                                verif_rx_index - 1,
+                            ));
                             return false;
                         }
                     }
@@ -384,8 +398,41 @@ impl GlobalCollector {
             );
         }
 
+        #[cfg(fastrace_verif)]
+        crate::verif::hook(crate::verif::Point::BeforeReport(committed_records.len()));
         self.reporter.as_mut().unwrap().report(committed_records);
     }
+}
+
+#[cfg(fastrace_verif)]
+pub(crate) fn verif_run_cycle() {
+    if let Some(global_collector) = GLOBAL_COLLECTOR.lock().as_mut() {
+        global_collector.handle_commands();
+    }
+}
+
+#[cfg(fastrace_verif)]
+pub(crate) fn verif_stats() -> crate::verif::CollectorStats {
+    let mut active = Vec::new();
+    if let Some(global_collector) = GLOBAL_COLLECTOR.lock().as_ref() {
+        for (collect_id, collector) in global_collector.active_collectors.iter() {
+            active.push((
+                *collect_id,
+                collector.span_collections.len(),
+                collector.danglings.values().map(|v| v.len()).sum(),
+            ));
+        }
+    }
+    active.sort();
+    crate::verif::CollectorStats {
+        active,
+        receivers: SPSC_RXS.lock().len(),
+    }
+}
+
+#[cfg(fastrace_verif)]
+pub(crate) fn verif_touch_sender() {
+    COMMAND_SENDER.try_with(|_| ()).ok();
 }
 
 impl LocalSpansInner {
